@@ -173,6 +173,9 @@ class SimpleClient:
         while not self.input_buffer:
             if not self.connected_event.wait(
                     timeout=timeout):  # pragma: no cover
+                if self.input_buffer:
+                    # an event arrived just before the connection dropped
+                    break
                 raise TimeoutError()
             if not self.connected:
                 if self.input_buffer:
